@@ -39,6 +39,7 @@ if [ "$applies" != no ]; then
     demos=""
     if [ -f "$src/place.json" ]; then
       # explicit placement: {"copies": {file: dest}, "hooks": [diff, ...], "append": {file: text}, "test_args": "..."}
+      export CONFIRM_ID="$id"
       demos=$(python3 - "$src" <<'PY'
 import json,sys,shutil,subprocess,os
 src=sys.argv[1]
@@ -49,9 +50,11 @@ for h in pl.get("hooks",[]):
     subprocess.check_call(["git","apply",os.path.join(src,h)])
 for f,t in pl.get("append",{}).items():
     open(f,"a").write(t)
+open("/tmp/confirm/%s-env.sh" % os.environ.get("CONFIRM_ID","x"),"w").write("".join("export %s=%s\n" % (k, json.dumps(v)) for k,v in pl.get("env",{}).items()))
 print(pl["test_args"])
 PY
 )
+      [ -f /tmp/confirm/$id-env.sh ] && . /tmp/confirm/$id-env.sh
     elif [ -f "$src/demo.diff" ]; then
       git apply "$src/demo.diff" && demos="--lib $(basename $(ls "$src"/demo_*.rs | head -1) .rs)"
     else
